@@ -117,6 +117,7 @@ verus_unit("oodv", "oodv", ["C03", "C06", "C12", "C04"], [
     "TraceOodFrame::to_trace_states / TraceOodFrame::hash (what the coin absorbs for the out-of-domain trace frame: the hash of the current / next evaluations interleaved per column followed by the Lagrange kernel frame values, every width)",
     "OodFrame::parse (every main / auxiliary width up to 255, every number of evaluations, every Lagrange frame size, EVERY content of the three byte vectors, abstract element decoder: Ok exactly when each section is canonical - Lagrange section = size byte k + exactly k element encodings, k > 0 only with an auxiliary segment; trace-state section = the byte 2 + exactly 2 * (main + aux') encodings; evaluation section = exactly num_evaluations encodings; nothing may follow in any section - and then the rows are the de-interleaved decoded elements, exactly main + aux' wide; no overflow / underflow / out-of-range index on any input)",
     "TraceOodFrame::new",
+    "Commitments::new (trace roots, constraint root, FRI roots, in that order) and its round trip with Commitments::parse for every number of roots (relative to the digest round trip)",
     "Commitments::parse (every number of trace segments and FRI layers, every byte content: Ok exactly when the bytes are num_trace_segments + 1 + num_fri_layers + 1 digest encodings and nothing else; the three results are those digests in order)",
     "Table::from_bytes (every admissible row / column count, every byte content: the first rows * cols element encodings, row-major; Err exactly when they cannot be decoded; the four assertions never fire for counts in 1..=255)"])
 
